@@ -68,4 +68,10 @@ MUTANTS = [
  {"id": "filter-cmds-wanted-missing-kind", "kind": "break", "edits": [{"patch": "/verif/benign/h4-plist-3/patch.diff"}, ("src/plist.rs", "                    | PlistEntry::UnExec(_)\n", "")], "expect": ["D1-TRANSDUCER"]},
  {"id": "filter-cmds-helper-ignore-not-consumed", "kind": "break", "edits": [{"patch": "/verif/benign/h4-plist-3/patch.diff"}, ("src/plist.rs", "!std::mem::take(&mut ignore)", "!ignore")], "expect": ["D1-TRANSDUCER"]},
 
+
+ # the '/' test as path.as_bytes().last() != Some(&b'/')
+ {"id": "slash-test-on-last-byte-benign", "kind": "benign", "edits": [{"patch": "/verif/benign/h10-plist-2/patch.diff"}]},
+ {"id": "slash-test-on-last-byte-inverted", "kind": "break", "edits": [{"patch": "/verif/benign/h10-plist-2/patch.diff"}, ("src/plist.rs", "if path.as_bytes().last() != Some(&b'/') {", "if path.as_bytes().last() == Some(&b'/') {")], "expect": ["D2-PREFIX"]},
+ {"id": "slash-test-on-first-byte", "kind": "break", "edits": [{"patch": "/verif/benign/h10-plist-2/patch.diff"}, ("src/plist.rs", "if path.as_bytes().last() != Some(&b'/') {", "if path.as_bytes().first() != Some(&b'/') {")], "expect": ["D2-PREFIX"]},
+ {"id": "slash-test-for-backslash", "kind": "break", "edits": [{"patch": "/verif/benign/h10-plist-2/patch.diff"}, ("src/plist.rs", "if path.as_bytes().last() != Some(&b'/') {", "if path.as_bytes().last() != Some(&b'\\\\') {")], "expect": ["D2-PREFIX"]},
 ]
